@@ -20,29 +20,32 @@ const (
 )
 
 type MAlloc struct {
-	Key                string
-	App                string
-	Res                Res
-	Priority           int32
-	Placeholder        bool
-	TaskGroup          string
-	RequiredNode       string
-	PreemptSelf        bool
-	PreemptOther       bool
-	Originator         bool
-	Foreign            bool
-	Status             string
-	Node               string
-	RMPlaced           bool   // bound by the shim itself (recovery / externally placed)
-	RelType            string // termination type of the announced, unconfirmed release
-	Announced          int    // how often the core announced the pending release
-	SubmitStep         int
-	BoundStep          int
-	EverBound          bool
-	RejectReason       string
-	ReleaseSent        bool // the shim sent a release for it (in flight or processed)
-	ReleasedDuringSwap bool // the shim released the ask while the core had it linked to a placeholder as its replacement
-	WasBound           bool // was bound when the shim sent its release
+	Key                 string
+	App                 string
+	Res                 Res
+	Priority            int32
+	Placeholder         bool
+	TaskGroup           string
+	RequiredNode        string
+	PreemptSelf         bool
+	PreemptOther        bool
+	Originator          bool
+	Foreign             bool
+	Status              string
+	Node                string
+	RMPlaced            bool   // bound by the shim itself (recovery / externally placed)
+	RelType             string // termination type of the announced, unconfirmed release
+	Announced           int    // how often the core announced the pending release
+	SubmitStep          int
+	BoundStep           int
+	EverBound           bool
+	RejectReason        string
+	ReleaseSent         bool // the shim sent a release for it (in flight or processed)
+	ReleasedDuringSwap  bool // the shim released the ask while the core had it linked to a placeholder as its replacement
+	WasBound            bool // was bound when the shim sent its release
+	PreemptAnnounced    bool
+	TriggeredPreemption bool
+	SubmitMs            int64
 }
 
 type MApp struct {
